@@ -47,7 +47,10 @@ type Result struct {
 	LexErr  *LexErr `json:"lexerr,omitempty"`
 	LexFail string  `json:"lexfail,omitempty"` // scanner misbehaved (panic, unknown message, no progress)
 	Proto   string  `json:"proto,omitempty"`   // sha256 of the structural dump
-	Micros  int64   `json:"us"`
+	// parse stage alone: 0 not asked, 1 accepted, 2 rejected (*parse.Error), 3 anything else
+	ParseStage int    `json:"pstage,omitempty"`
+	ParseMsg   string `json:"pmsg,omitempty"`
+	Micros     int64  `json:"us"`
 }
 
 var tokMap = map[int]int{
@@ -214,4 +217,27 @@ func loadFileOnce(src []byte) (class int, msg string) {
 		return loadOtherErr, "LoadFile returned neither a Lua function nor an error"
 	}
 	return loadFunction, ""
+}
+
+const (
+	parseAccepted = 1
+	parseRejected = 2
+	parseBroken   = 3
+)
+
+// parseStage runs gopher-lua's parser alone (no compile): accepted / rejected with a *parse.Error.
+func parseStage(src []byte) (st int, msg string) {
+	defer func() {
+		if r := recover(); r != nil {
+			st, msg = parseBroken, "panic escaped parse.Parse: "+trunc(fmt.Sprint(r), 200)
+		}
+	}()
+	_, err := parse.Parse(strings.NewReader(string(src)), "<string>")
+	if err == nil {
+		return parseAccepted, ""
+	}
+	if _, ok := err.(*parse.Error); ok {
+		return parseRejected, trunc(strings.TrimSpace(err.Error()), 160)
+	}
+	return parseBroken, trunc(fmt.Sprintf("%T: %v", err, err), 200)
 }
